@@ -185,7 +185,7 @@ def split_top(s, sep):
 # ============================================================================================
 # 2. Tokenizer / parser (Rust statement + expression subset)
 # ============================================================================================
-TOKEN = re.compile(r'''\s*("(?:[^"\\]|\\.)*"|\d[\d_]*(?:usize|u64|u32|isize)?|[A-Za-z_]\w*(?:!(?!=))?|'''
+TOKEN = re.compile(r'''\s*("(?:[^"\\]|\\.)*"|0x[0-9A-Fa-f_]+|\d[\d_]*(?:\.\d+)?(?:usize|u64|u32|isize)?|[A-Za-z_]\w*(?:!(?!=))?|'''
                    r'''::|==|!=|<=|>=|&&|\|\||->|=>|\.\.=|\.\.|<<|>>|&=|\|=|\^=|\+=|-=|\*=|/=|%=|'''
                    r'''[(){}\[\].,;|&!+\-*/%^=<>:#?@'])''')
 
@@ -254,6 +254,16 @@ class Parser:
                     self.eat("}")
                 self.eat(";")
                 stmts.append(("let", pat, ty, e, els))
+                continue
+            if self.peek() == "const":
+                self.eat()
+                name = self.eat()
+                self.eat(":")
+                cty = self.type_text(("=",))
+                self.eat("=")
+                e = self.expr()
+                self.eat(";")
+                stmts.append(("let", ("pvar", name, False), None, ("ascribe", e, cty), None))
                 continue
             if self.peek() in ("fn", "use", "struct", "impl", "const", "static", "type", "#"):
                 raise TErr(f"item `{self.peek()}` inside a body is outside the supported subset")
@@ -373,7 +383,8 @@ class Parser:
                 return ("range", lo, None)
             return ("range", lo, self.or_())
         if self.peek() == "..=":
-            raise TErr("inclusive range is outside the supported subset")
+            self.eat()
+            return ("rangeincl", lo, self.or_())
         return lo
 
     def binl(self, sub, ops, stmt=False):
@@ -566,6 +577,19 @@ class Parser:
             if len(items) == 1 and not trailing:
                 return ("paren", items[0])
             return ("tup", items)
+        if cur == "[":
+            self.eat()
+            saved, self.no_struct = self.no_struct, 0
+            items = []
+            while self.peek() != "]":
+                items.append(self.expr())
+                if self.peek() == ",":
+                    self.eat()
+                elif self.peek() == ";":
+                    raise TErr("array repeat expression `[x; n]` is outside the supported subset")
+            self.eat("]")
+            self.no_struct = saved
+            return ("veclit", items)
         if cur == "{":
             return ("block", self.braced())
         if cur == "unsafe":
@@ -603,6 +627,12 @@ class Parser:
         if cur.startswith('"'):
             self.eat()
             return ("str", cur)
+        if re.match(r"0x", cur):
+            self.eat()
+            return ("lit", int(cur.replace("_", ""), 16))
+        if re.match(r"\d[\d_]*\.\d", cur):
+            self.eat()
+            return ("flit", cur)
         if re.match(r"\d", cur):
             self.eat()
             return ("lit", int(re.sub(r"(usize|u64|u32|isize)\Z", "", cur).replace("_", "")))
@@ -797,6 +827,9 @@ def SET(kind):
     return ("set", kind)
 
 
+U64 = ("u64",)                      # u64 with wrapping arithmetic: Lean `UInt64`
+F64U = ("f64u",)                    # a double in [0, 1) given as `from_bits(1023 << 52 | m) - 1.0`: its 52 mantissa bits `m : Nat`
+F64 = ("f64",)                      # an arbitrary double parameter: the decoded `Rand.F64` of the hand-written model
 PSET = ("pset",)                    # BTreeSet<(usize, usize)>: the ascending pair list of Model/Repr.lean (`pinsert`)
 BLOCKS = ("blocks",)                # the bit blocks of the adjacency matrix (never touched by the covered code)
 
@@ -815,7 +848,7 @@ def show_ty(t):
         return f"{t[0]}<{show_ty(t[1])}>"
     if t[0] == "set":
         return "set"
-    if t[0] in ("setiter", "tarjanOf", "graph", "map", "pset", "blocks"):
+    if t[0] in ("setiter", "tarjanOf", "graph", "map", "pset", "blocks", "u64", "f64u", "f64"):
         return t[0]
     if t[0] == "tup":
         return "(" + ", ".join(show_ty(x) for x in t[1]) + ")"
@@ -836,7 +869,7 @@ def unify(a, b, what):
         if a.numeric:
             if isinstance(b, TVar):
                 b.numeric = True
-            elif b not in (NAT, INT):
+            elif b not in (NAT, INT, U64):
                 raise TErr(f"type mismatch in {what}: a number where {show_ty(b)} is expected")
         a.ref = b
         return
@@ -863,6 +896,19 @@ def unify(a, b, what):
 CUR = {"graph": "Graph"}
 TY_MARK = re.compile("«T(\\d+):(\\d)»")
 KIND_MARK = re.compile("«K(\\d+)»")
+LIT_MARK = re.compile("«L(\\d+):(\\d+)»")
+ASC_MARK = re.compile("«A(\\d+)»")
+
+
+def asc_mark(t):
+    """` : UInt64` after the name of a `let` whose value is a u64 (Lean's default numeral type would
+    otherwise win while the elaboration of an enclosing struct update is postponed); empty otherwise"""
+    t = prune(t)
+    if isinstance(t, TVar):
+        TVARS[t.id] = t
+        return f"«A{t.id}»"
+    return " : UInt64" if t == U64 else ""
+
 
 
 def kind_suffix(k):
@@ -898,6 +944,12 @@ def lean_ty(t, atom=False, prec=None):
         return "Entry"
     if k == "struct":
         return STRUCTS[t[1]].get("extern", t[1]) if t[1] in STRUCTS else t[1]
+    if k == "u64":
+        return "UInt64"
+    if k == "f64u":
+        return "Nat"
+    if k == "f64":
+        return "Rand.F64"
     if k == "pset":
         return "List (Nat × Nat)" if prec < 2 else "(List (Nat × Nat))"
     if k == "blocks":
@@ -942,7 +994,13 @@ def resolve_types(text):
         if isinstance(k, TVar):
             raise TErr("the representation of a local BTreeSet could not be inferred")
         return kind_suffix(k)
-    return KIND_MARK.sub(ksub, text)
+    text = KIND_MARK.sub(ksub, text)
+
+    def lsub(m):
+        t = prune(TVARS[int(m.group(1))])
+        return f"({m.group(2)} : UInt64)" if t == U64 else m.group(2)
+    text = LIT_MARK.sub(lsub, text)
+    return ASC_MARK.sub(lambda m: " : UInt64" if prune(TVARS[int(m.group(1))]) == U64 else "", text)
 
 
 def proj(code, i, n):
@@ -1077,6 +1135,47 @@ TARGETS = [
     ("FloydWarshall", None, "distances", "distances", {}),
 ]
 
+STRUCTS.update({
+    # the PRNGs, bit exact on UInt64 (`[u64; 4]` is a list of four words)
+    "SplitMix64": dict(dir="gen/prng", file="split_mix64.rs", graph=None, sentinel=None,
+                       fields=[("state", "u64", U64)], item=("u64", U64)),
+    "Xoshiro256StarStar": dict(dir="gen/prng", file="xoshiro256_star_star.rs", graph=None, sentinel=None, ptr_deref0=True,
+                               f64_unit=True, fields=[("state", "[u64;4]", LIST(U64))], item=("u64", U64)),
+})
+
+# the third generated file (Model/AlgoGen3.lean)
+TARGETS3 = [
+    ("SplitMix64", None, "new", "new", {}),
+    ("SplitMix64", "Iterator", "next", "next", {}),
+    ("Xoshiro256StarStar", None, "new", "new", {}),
+    ("Xoshiro256StarStar", "Iterator", "next", "next", {}),
+    ("Xoshiro256StarStar", None, "next_bool", "nextBool", {}),
+    ("Xoshiro256StarStar", None, "next_f64", "nextF64", {}),
+    # C15: the sequential seeded generators
+    ("AdjacencyList", "RandomTournament", "random_tournament", "randomTournament", {}),
+    ("AdjacencyMatrix", "RandomTournament", "random_tournament", "randomTournament", {}),
+    ("EdgeList", "RandomTournament", "random_tournament", "randomTournament", {}),
+    ("AdjacencyList", "RandomRecursiveTree", "random_recursive_tree", "randomRecursiveTree", {}),
+    ("AdjacencyMap", "RandomRecursiveTree", "random_recursive_tree", "randomRecursiveTree", {}),
+    ("AdjacencyMatrix", "RandomRecursiveTree", "random_recursive_tree", "randomRecursiveTree", {}),
+    ("EdgeList", "RandomRecursiveTree", "random_recursive_tree", "randomRecursiveTree", {}),
+    ("AdjacencyList", "ErdosRenyi", "erdos_renyi", "erdosRenyi", {}),
+    ("AdjacencyMatrix", "ErdosRenyi", "erdos_renyi", "erdosRenyi", {}),
+    ("EdgeList", "ErdosRenyi", "erdos_renyi", "erdosRenyi", {}),
+    # C11: the sequential operations
+    ("AdjacencyMatrix", "Complement", "complement", "complement", {}),
+    ("AdjacencyMatrix", "Converse", "converse", "converse", {}),
+    ("AdjacencyMatrix", "Union", "union", "union", {}),
+    ("EdgeList", "Union", "union", "union", {}),
+    ("AdjacencyList", "Converse", "converse", "converse", {}),
+    ("AdjacencyListWeighted", "Converse", "converse", "converse", {}),
+    ("EdgeList", "Converse", "converse", "converse", {}),
+    ("EdgeList", "Complement", "complement", "complement", {}),
+    ("AdjacencyMap", "Complement", "complement", "complement", {}),
+    ("AdjacencyMap", "Converse", "converse", "converse", {}),
+    ("AdjacencyMap", "FilterVertices", "filter_vertices", "filterVertices", {}),
+]
+
 # the second generated file (Model/AlgoGen2.lean)
 TARGETS2 = [
     ("Tarjan", None, "new", "new", {}),
@@ -1119,6 +1218,17 @@ NOT_COVERED = {
     ("PredecessorTree", "Index", "index"): "trivial wrapper (`&self.pred[index]`)",
     ("PredecessorTree", "IndexMut", "index_mut"): "trivial wrapper",
     ("PredecessorTree", "IntoIterator", "into_iter"): "trivial wrapper",
+}
+
+# set 3: the candidates of the coordinator's list that stay hand-written
+NOT_COVERED3 = {
+    ("AdjacencyMap", "RandomTournament", "random_tournament"):
+        "threads (`thread::scope`, one `Mutex` per row): hand-written `Rand.tournamentAM` + the transition system `TState`",
+    ("AdjacencyMap", "ErdosRenyi", "erdos_renyi"):
+        "threads (one PRNG per worker) and the `complement` path for `p > 0.5`: hand-written `Rand.erAM`",
+    ("AdjacencyList", "Complement", "complement"): "threads (`Par.ranges`): hand-written `Ops.complementAL`",
+    ("AdjacencyList", "Union", "union"): "threads (`step_by(chunk)` workers writing disjoint slots): hand-written `Ops.unionAL`",
+    ("AdjacencyMap", "Union", "union"): "threads (`find_partition` + per-thread merge): hand-written `Ops.unionAM`",
 }
 
 # fuel of a loop fixed by an expression over the variables in scope (otherwise the enclosing
@@ -1198,8 +1308,8 @@ class LoopCtx:
         self.depth, self.cont_ok = 0, []
 
 
-MUTATING = {"add_arc", "add_arc_weighted", "push", "push_back", "pop", "pop_front", "reverse", "next", "by_ref", "clear", "get_mut", "insert", "remove",
-            "pop_first"}
+MUTATING = {"add_arc", "add_arc_weighted", "get_unchecked_mut", "push", "push_back", "pop", "pop_front", "reverse", "next", "by_ref", "clear", "get_mut", "insert", "remove",
+            "pop_first", "or_default"}
 
 
 class Ctx:
@@ -1221,6 +1331,9 @@ class Ctx:
         self.recursive = False
         self.mutref_tys = {}
         self.mutrefs = []       # rust names of the `&mut T` parameters (returned after `self`)
+        self.branch_states = []         # (first binding id of the branch, ids of the variables it returns | None)
+        self.pipe_n = 0
+        self.collect_target = None      # Rust type text of the container a `.collect()` without turbofish builds
 
     # ---- names / bindings ----
     def fresh_tmp(self):
@@ -1335,13 +1448,21 @@ def place_set(ctx, env, place, newcode):
         raise TErr(f"`{root}` is not a variable holding a value")
     if not b.mut and not (root == "self" and ctx.self_mode == "mut"):
         raise TErr(f"assignment to the immutable variable `{root}`")
+    # safety net behind the mutation pre-pass: an update of a variable that lives outside the loop body /
+    # branch being compiled must be part of the state that construct hands on, else it would be lost
+    for f in ctx.frames[1:]:
+        if b.bid < f.start_bid and b.bid not in getattr(f, "state_bids", set()):
+            raise TErr(f"internal: `{root}` is updated inside a loop body but is not part of the loop state")
+    for start, allowed in ctx.branch_states:
+        if allowed is not None and b.bid < start and b.bid not in allowed:
+            raise TErr(f"internal: `{root}` is updated inside a branch but is not part of the state the branch returns")
     ctx.use(b)
 
     def build(prefix, fs):
         if not fs:
             return newcode
         return "{ " + prefix + " with " + fs[0] + " := " + build(prefix + "." + fs[0], fs[1:]) + " }"
-    ctx.em.emit(f"let {b.lean} := {build(b.lean, fields)}")
+    ctx.em.emit(f"let {b.lean}{asc_mark(b.ty) if not fields else ''} := {build(b.lean, fields)}")
     b.parts = None
 
 
@@ -1379,6 +1500,16 @@ def elem_place(ctx, env, recv):
     """`*p.add(i)`, `*q` (q a named element pointer) or `q` itself when it is a `&mut` to an element obtained
     from `p.add(i).as_mut()`: (vector place, index Val, site) - else None."""
     r = strip_wrappers(recv)
+    if r[0] == "mcall" and r[2] in ("get_unchecked_mut", "get_unchecked") and len(r[4]) == 1:
+        pl = place_of(r[1])
+        if pl is None or pl[0] not in env or env[pl[0]].kind != "val":
+            return None
+        t = prune(place_val(ctx, env, pl).ty)
+        if isinstance(t, TVar) or t[0] != "list":
+            return None
+        i = compile_expr(ctx, env, r[4][0], NAT)
+        unify(i.ty, NAT, "index of get_unchecked")
+        return pl, i, ctx.site(unparse(r))
     if r[0] == "un" and r[1] == "*":
         pe = eval_ptr(ctx, env, r[2])
         if pe is not None and pe[0] == "elem":
@@ -1433,6 +1564,23 @@ def free_vars(e, out):
 ARITH = {"+": "+", "-": "-", "*": "*", "/": "/", "%": "%"}
 
 
+def const_fold(env, e):
+    """value of a constant expression over literals and earlier `const` items, else None"""
+    e = strip_wrappers(e)
+    if e[0] == "lit":
+        return e[1]
+    if e[0] == "var":
+        b = env.get(e[1])
+        return getattr(b, "const_val", None) if b is not None else None
+    if e[0] == "bin" and e[1] in ("+", "-", "*", "<<", ">>", "&", "|", "^"):
+        a, b = const_fold(env, e[2]), const_fold(env, e[3])
+        if a is None or b is None:
+            return None
+        r = {"+": a + b, "-": a - b, "*": a * b, "<<": a << b, ">>": a >> b, "&": a & b, "|": a | b, "^": a ^ b}[e[1]]
+        return r
+    return None
+
+
 def is_max_path(e):
     return e[0] == "path" and e[1] in (["usize", "MAX"], ["isize", "MAX"])
 
@@ -1455,7 +1603,9 @@ def compile_expr(ctx, env, e, expect=None):
                 unify(t, expect, "literal")
             except TErr:
                 pass
-        return Val(str(e[1]), t, atomic=True)
+        v = Val(str(e[1]), t, atomic=True)
+        v.lit = e[1]
+        return v
     if k == "bool":
         return Val(e[1], BOOL, atomic=True)
     if k == "var":
@@ -1545,6 +1695,23 @@ def compile_expr(ctx, env, e, expect=None):
         tmp = ctx.fresh_tmp()
         ctx.em.emit(f"let {tmp} ← idx {base.p()} {i.p()}")
         return Val(tmp, t[1], atomic=True, stable=True)
+    if k == "range" and e[1] is not None and e[2] is not None and ctx.sinfo.get("extern"):
+        return list_iter(ctx, env, e)
+    if k == "ascribe":
+        t = rust_ty(e[2], ctx.sname, ctx.aliases, {})
+        cv = const_fold(env, e[1])
+        if cv is not None and t in (U64, NAT):
+            # a `const` item: evaluated by the translator as rustc does (overflow = compile error there)
+            if not (0 <= cv < 2 ** 64):
+                raise TErr("constant out of the u64 range")
+            v = Val(f"({cv} : {lean_ty(t)})", t, atomic=True)
+            v.const_val = cv
+            return v
+        v = compile_expr(ctx, env, e[1], t)
+        unify(v.ty, t, "constant")
+        return Val(f"({v.code} : {lean_ty(t)})", t, atomic=True)
+    if k == "flit":
+        raise TErr(f"float literal `{e[1]}` is supported only in `f64::from_bits(b) - 1.0`")
     if k == "vecrep":
         x = compile_expr(ctx, env, e[1])
         n = compile_expr(ctx, env, e[2], NAT)
@@ -1568,6 +1735,28 @@ def compile_expr(ctx, env, e, expect=None):
         raise TErr("`as` casts are outside the supported subset")
     if k == "try":
         raise TErr("`?` is supported only as `let pat = e?;`")
+    if k == "withtarget":
+        saved_ct = ctx.collect_target
+        ctx.collect_target = e[1]
+        try:
+            return compile_expr(ctx, env, e[2], expect)
+        finally:
+            ctx.collect_target = saved_ct
+    if k == "if" and e[3] is not None and e[1][0] != "letcond" and ctx.sinfo.get("extern"):
+        # `if c { a } else { b }` as a value: both branches pure expressions
+        c = compile_cond(ctx, env, e[1])
+        vals = []
+        for br in (e[2], e[3]):
+            saved, saved_loops = ctx.em, ctx.loops
+            sub = Emitter(0)
+            ctx.em, ctx.loops = sub, []
+            v, div = compile_stmts(ctx, dict(env), br, want_value=True)
+            ctx.em, ctx.loops = saved, saved_loops
+            if sub.lines or div or v is None:
+                raise TErr("`if` in expression position: a branch that is not a pure expression is outside the supported subset")
+            vals.append(v)
+        unify(vals[0].ty, vals[1].ty, "branches of `if`")
+        return Val(f"if {c} then {vals[0].code} else {vals[1].code}", vals[0].ty)
     raise TErr(f"`{k}` in expression position is outside the supported subset")
 
 
@@ -1596,7 +1785,9 @@ def compile_deref(ctx, env, x):
     pe = eval_ptr(ctx, env, x)
     if pe is not None:
         if pe[0] != "elem":
-            raise TErr(f"`*{unparse(x)}`: dereferencing the buffer pointer itself is outside the supported subset")
+            if not ctx.sinfo.get("ptr_deref0"):
+                raise TErr(f"`*{unparse(x)}`: dereferencing the buffer pointer itself is outside the supported subset")
+            pe = ("elem", pe[1], Val("0", NAT, atomic=True), ctx.site(unparse(x)))      # `*p` is element 0
         _, place, i, site = pe
         pv = place_val(ctx, env, place)
         t = prune(pv.ty)
@@ -1615,7 +1806,7 @@ def compile_deref(ctx, env, x):
 def num_result(a, b, what):
     unify(a.ty, b.ty, what)
     t = prune(a.ty)
-    if not isinstance(t, TVar) and t not in (NAT, INT):
+    if not isinstance(t, TVar) and t not in (NAT, INT, U64):
         raise TErr(f"{what}: arithmetic on {show_ty(t)}")
     if isinstance(t, TVar):
         t.numeric = True
@@ -1669,6 +1860,11 @@ def compile_bin(ctx, env, e, expect):
         return Val(proj(tmp, 0, n), BOOL, atomic=True, stable=True)
     if op in CMP:
         a = compile_expr(ctx, env, e[2])
+        if prune(a.ty) == F64U:
+            b = compile_expr(ctx, env, e[3], F64)
+            if op != "<" or prune(b.ty) != F64:
+                raise TErr(f"`{unparse(e)}`: only `next_f64() < p` is supported on doubles")
+            return Val(f"f64ltM {a.p()} {b.p()}", BOOL)
         b = compile_expr(ctx, env, e[3], a.ty)
         unify(a.ty, b.ty, f"operands of {op}")
         if op == "==":
@@ -1676,10 +1872,34 @@ def compile_bin(ctx, env, e, expect):
         if op == "!=":
             return Val(f"{a.p()} != {b.p()}", BOOL)
         return Val(f"decide ({a.code} {op.replace('<=', '≤').replace('>=', '≥')} {b.code})", BOOL)
+    if op in ("^", "&", "|", "<<", ">>"):
+        a = compile_expr(ctx, env, e[2], U64)
+        b = compile_expr(ctx, env, e[3], U64)
+        unify(a.ty, U64, f"operand of {op} (only u64 bit operations are in the subset)")
+        unify(b.ty, U64, f"operand of {op}")
+        lop = {"^": "^^^", "&": "&&&", "|": "|||", "<<": "<<<", ">>": ">>>"}[op]
+        return Val(f"{a.p()} {lop} {b.p()}", U64)
+    if op == "-" and strip_wrappers(e[3])[0] == "flit":
+        # `f64::from_bits(b) - 1.0`: the double with sign 0 / exponent 1023 / mantissa m minus one is
+        # exactly m / 2^52 - represented by its mantissa bits (docs/AlgoGen.md, trusted)
+        l = strip_wrappers(e[2])
+        if strip_wrappers(e[3])[1] == "1.0" and l[0] == "call" and l[1] == ("path", ["f64", "from_bits"]) and len(l[2]) == 1:
+            b = compile_expr(ctx, env, l[2][0], U64)
+            unify(b.ty, U64, "argument of f64::from_bits")
+            tmp = ctx.fresh_tmp()
+            ctx.em.emit(f"let {tmp} ← f64UnitOfBits {b.p()}")
+            return Val(tmp, F64U, atomic=True, stable=True)
+        raise TErr(f"`{unparse(e)}`: float arithmetic is outside the supported subset")
     if op in ARITH:
         a = compile_expr(ctx, env, e[2], expect)
         b = compile_expr(ctx, env, e[3], a.ty)
         t = num_result(a, b, f"operands of {op}")
+        if prune(t) == U64:
+            raise TErr(f"`{op}` on u64 (overflow panics in the dev profile) is outside the supported subset; use wrapping_*")
+        if op == "%" and prune(t) == NAT and ctx.sinfo.get("extern"):
+            tmp = ctx.fresh_tmp()
+            ctx.em.emit(f"let {tmp} ← modP {a.p()} {b.p()}")      # panics for a zero divisor
+            return Val(tmp, NAT, atomic=True, stable=True)
         if op in ("/", "%"):
             raise TErr(f"`{op}` (division by zero panics) is outside the supported subset")
         if op == "-" and prune(t) != INT:
@@ -1693,6 +1913,11 @@ def compile_cond(ctx, env, e):
     s = strip_wrappers(e) if e[0] == "paren" else e
     if s[0] == "bin" and s[1] in CMP:
         a = compile_expr(ctx, env, s[2])
+        if prune(a.ty) == F64U:
+            b = compile_expr(ctx, env, s[3], F64)
+            if s[1] != "<" or prune(b.ty) != F64:
+                raise TErr(f"`{unparse(s)}`: only `next_f64() < p` is supported on doubles")
+            return f"f64ltM {a.p()} {b.p()} = true"
         b = compile_expr(ctx, env, s[3], a.ty)
         unify(a.ty, b.ty, f"operands of {s[1]}")
         op = {"==": "=", "!=": "≠", "<=": "≤", ">=": "≥"}.get(s[1], s[1])
@@ -1727,7 +1952,10 @@ def compile_struct(ctx, env, e):
             if not (sv[0] == "var" and sv[1] in env and env[sv[1]].kind == "graph"):
                 raise TErr(f"struct literal `{name}`: field `{fname}` must be the digraph reference")
             continue
+        saved_ct = ctx.collect_target
+        ctx.collect_target = next(rt for fn_, rt, _ in STRUCTS[name]["fields"] if fn_ == fname)
         v = compile_expr(ctx, env, ex, fty)
+        ctx.collect_target = saved_ct
         unify(v.ty, fty, f"field `{fname}` of `{name}`")
         parts.append(f"{STRUCTS[name].get('lean_fields', {}).get(fname, fname)} := {v.code}")
     if given:
@@ -1744,6 +1972,7 @@ def compile_closure(ctx, env, lam, param_tys, ret_ty):
         raise TErr("closure arity mismatch")
     inner = dict(env)
     names = []
+    tup_params = []
     for p, t in zip(lam[1], param_tys):
         while p[0] == "pref":
             p = p[1]
@@ -1754,11 +1983,17 @@ def compile_closure(ctx, env, lam, param_tys, ret_ty):
             names.append(n)
             check_no_alias_root(inner, p[1])
             ctx.new_bind(inner, Bind("val", p[1], lean=n, ty=t, mut=p[2], stable=not p[2]))
+        elif p[0] == "ptup" and ctx.sinfo.get("extern"):
+            n = ctx.fresh_name("x")
+            names.append(n)
+            tup_params.append((p, Val(n, t, atomic=True, stable=True)))
         else:
             raise TErr("closure parameter pattern is outside the supported subset")
     saved, saved_loops = ctx.em, ctx.loops
     sub = Emitter(0)
     ctx.em, ctx.loops = sub, []
+    for p, v in tup_params:
+        bind_pattern(ctx, inner, p, v, True)
     body = compile_expr(ctx, inner, lam[2], ret_ty)
     ctx.em, ctx.loops = saved, saved_loops
     for line in sub.lines:
@@ -1813,7 +2048,15 @@ def compile_call(ctx, env, e, expect):
                 tv = TVar()
                 return Val(f"([] : {lean_ty(tv)})", tv, atomic=True)
             return Val("([] : List Nat)", SET(TVar()), atomic=True)
+        if segs == ["BTreeSet", "from"] and len(args) == 1 and strip_wrappers(args[0])[0] == "veclit" and ctx.sinfo.get("extern"):
+            # `BTreeSet::from([a, b, ..])` = the items inserted in order
+            l = compile_expr(ctx, env, args[0], LIST(NAT))
+            unify(l.ty, LIST(NAT), "items of BTreeSet::from")
+            return Val(f"Ops.toSet {l.p()}", SET(KA))
         if segs == ["BTreeMap", "new"] and not args:
+            if ctx.sinfo.get("extern"):
+                tv = TVar()
+                return Val(f"([] : {lean_ty(tv)})", tv, atomic=True)
             return Val("([] : NatMap)", MAP, atomic=True)
         if segs == ["BinaryHeap", "with_capacity"] and len(args) == 1:
             if ctx.sinfo.get("heap") is None:
@@ -1826,6 +2069,11 @@ def compile_call(ctx, env, e, expect):
             if gv.ty != GRAPH_T:
                 raise TErr("`Tarjan::new` of something that is not a digraph")
             return Val(gv.code, ("tarjanOf",), atomic=gv.atomic, stable=gv.stable)
+        if segs == ["Self", "trivial"] and not args and "extern" in ctx.sinfo:
+            # `Empty::trivial` (src/gen/empty.rs) is `Self::empty(1)`
+            tmp = ctx.fresh_tmp()
+            ctx.em.emit(f"let {tmp} ← optP ({ctx.sinfo['extern']}.empty 1)")
+            return Val(tmp, STRUCT(ctx.sname), atomic=True, stable=True)
         if segs == ["Self", "empty"] and len(args) == 1 and "extern" in ctx.sinfo:
             n = compile_expr(ctx, env, args[0], NAT)
             unify(n.ty, NAT, "order")
@@ -1901,8 +2149,179 @@ def instantiate(t):
     return t
 
 
+ADAPTORS = ("map", "filter", "flat_map")
+
+
+def closures_in(e, out):
+    if isinstance(e, list):
+        for x in e:
+            closures_in(x, out)
+    elif isinstance(e, tuple) and e:
+        if e[0] == "closure":
+            out.append(e)
+        for x in e[1:]:
+            if isinstance(x, (tuple, list)):
+                closures_in(x, out)
+    return out
+
+
+def effectful(ctx, e):
+    """does an iterator expression contain a closure that updates a variable declared outside of it
+    (e.g. draws from a PRNG)?  Such a pipeline is translated as the loop its consumer runs."""
+    for lam in closures_in(e, []):
+        out = set()
+        mutated_vars(ctx, lam, [set()], out)
+        if out:
+            return True
+    return False
+
+
+def pipe_of(ctx, e):
+    """(source, stages) of an iterator pipeline; source = an expression, or ('chain', pipe, pipe) when a
+    chained part has effects; stages = [(adaptor, closure)]"""
+    e = strip_wrappers(e)
+    if e[0] == "mcall" and e[2] in ADAPTORS and len(e[4]) == 1 and e[4][0][0] == "closure" and len(e[4][0][1]) == 1:
+        src, stages = pipe_of(ctx, e[1])
+        return src, stages + [(e[2], e[4][0])]
+    if e[0] == "mcall" and e[2] in ("copied", "cloned") and not e[4]:
+        return pipe_of(ctx, e[1])
+    if e[0] == "mcall" and e[2] == "chain" and len(e[4]) == 1 and effectful(ctx, e):
+        return ("chain", pipe_of(ctx, e[1]), pipe_of(ctx, e[4][0])), []
+    if e[0] == "call" and e[1] in (("var", "once"), ("path", ["iter", "once"])) and len(e[2]) == 1:
+        return ("veclit", [e[2][0]]), []
+    if effectful(ctx, e):
+        raise TErr(f"`{unparse(e)}`: an iterator adaptor with an effectful closure outside `map` / `filter` / "
+                   f"`flat_map` / `chain` / `once` is outside the supported subset")
+    return e, []
+
+
+def compile_collect_loop(ctx, env, e, fish, expect):
+    """`pipeline.collect()` where a closure of the pipeline has effects: `collect` pulls the items one by one,
+    every adaptor handles an item as it passes, so the whole is the loop
+    `let mut acc = new(); for x in source { stages..; acc.push(item) | acc.insert(item) }; acc`
+    (`chain` = one loop after the other, `once(x)` = the one-item list)."""
+    target = fish
+    if target is None:
+        pe = prune(expect) if expect is not None else None
+        if ctx.collect_target is not None:
+            target = ctx.collect_target
+        elif pe is not None and not isinstance(pe, TVar) and (pe == PSET or pe[0] == "set"):
+            target = "BTreeSet"
+        elif pe is not None and not isinstance(pe, TVar) and pe[0] == "list":
+            target = "Vec"
+    if target is None or not (target.startswith("Vec") or target.startswith("BTreeSet") or target.startswith("BTreeMap")):
+        raise TErr(f"`{unparse(e)}`: cannot tell the collection that is built (Vec / BTreeSet / BTreeMap)")
+    is_vec = target.startswith("Vec")
+    is_map = target.startswith("BTreeMap")
+    m = re.match(r"(?:Vec|BTreeSet)<(.*)>\Z", target)
+    elem_target = m.group(1) if m and re.match(r"(Vec|BTreeSet|BTreeMap)<", m.group(1)) else None
+    n = ctx.pipe_n
+    ctx.pipe_n += 1
+    cnt = [0]
+
+    def fresh(base):
+        cnt[0] += 1
+        return f"{base}_{n}_{cnt[0]}"
+    acc = f"acc_{n}"
+
+    def consume(cur):
+        if is_vec:
+            return [("expr", ("mcall", ("var", acc), "push", None, [cur]), True)]
+        if is_map:
+            # `BTreeMap::from_iter` inserts the pairs in order (a later pair replaces an earlier one with its key)
+            c = strip_wrappers(cur)
+            if c[0] == "tup" and len(c[1]) == 2:
+                kv = list(c[1])
+            elif c[0] == "var":
+                kv = [("field", c, "0"), ("field", c, "1")]
+            else:
+                raise TErr(f"`{unparse(e)}`: the items collected into a BTreeMap must be pair expressions")
+            return [("let", ("pwild",), None, ("mcall", ("var", acc), "insert", None, kv), None)]
+        return [("let", ("pwild",), None, ("mcall", ("var", acc), "insert", None, [cur]), None)]
+
+    def stage_stmts(stages, cur):
+        if not stages:
+            return consume(cur)
+        (kind, lam), rest = stages[0], stages[1:]
+        param, body = lam[1][0], lam[2]
+        bind = [] if strip_pref(param)[0] == "pwild" else [("let", param, None, cur, None)]
+        if kind == "map":
+            if not rest:
+                return bind + consume(("withtarget", elem_target, body) if elem_target else body)
+            y = fresh("it")
+            return bind + [("let", ("pvar", y, False), None, body, None)] + stage_stmts(rest, ("var", y))
+        if kind == "filter":
+            return bind + [("expr", ("if", body, stage_stmts(rest, cur), None), True)]
+        y = fresh("it")
+        return bind + [("expr", ("for", ("pvar", y, False), body, stage_stmts(rest, ("var", y))), True)]
+
+    def loops(pipe, more):
+        src, stages = pipe
+        if isinstance(src, tuple) and src and src[0] == "chain":
+            return loops(src[1], stages + more) + loops(src[2], stages + more)
+        x = fresh("it")
+        return [("expr", ("for", ("pvar", x, False), src, stage_stmts(stages + more, ("var", x))), True)]
+
+    block = ("block", [("let", ("pvar", acc, True), None,
+                        ("call", ("path", ["Vec" if is_vec else "BTreeMap" if is_map else "BTreeSet", "new"]), []), None)]
+             + loops(pipe_of(ctx, e[1]), []) + [("expr", ("var", acc), False)])
+    return compile_expr(ctx, env, block, expect)
+
+
+def compile_collect(ctx, e, r, t, fish, expect):
+    """`iter.collect()` into the container named by the turbofish, else by the struct field / expected type:
+    a `Vec` is the list itself, a `BTreeSet` / `BTreeMap` is built by inserting the items in order
+    (`Ops.toSet` / `Ops.toPSet` / `Ops.toMap` of the hand-written std model)."""
+    target = fish
+    if target is None:
+        pe = prune(expect) if expect is not None else None
+        if pe is not None and not isinstance(pe, TVar) and (pe == PSET or pe[0] == "set"):
+            target = "BTreeSet"
+        elif ctx.collect_target is not None:
+            target = ctx.collect_target
+        elif pe is not None and not isinstance(pe, TVar) and pe[0] == "list":
+            target = "Vec"
+    if target is None:
+        raise TErr(f"`{unparse(e)}`: cannot tell the collection that is built")
+    if target.startswith("Vec"):
+        return r
+    et = prune(t[1])
+    if target.startswith("BTreeSet"):
+        if isinstance(et, TVar):
+            raise TErr(f"`{unparse(e)}`: element type unknown")
+        if et == NAT:
+            v = Val(f"Ops.toSet {r.p()}", SET(KA))
+            return v
+        if et == TUP(NAT, NAT):
+            v = Val(f"Ops.toPSet {r.p()}", PSET)
+            return v
+        raise TErr(f"`{unparse(e)}`: a BTreeSet of {show_ty(et)} is outside the typed model")
+    if target.startswith("BTreeMap"):
+        vt = TVar()
+        unify(t[1], TUP(NAT, vt), "items collected into a BTreeMap")
+        src = strip_wrappers(e[1])
+        if src[0] == "mcall" and src[2] == "enumerate":
+            # keys 0, 1, 2, .. in order: already the key-ascending list
+            return r
+        return Val(f"Ops.toMap {r.p()}", r.ty)
+    raise TErr(f"`{unparse(e)}`: collecting into `{target}` is outside the supported subset")
+
+
 def compile_mcall(ctx, env, e, expect):
     recv, name, fish, args = e[1], e[2], e[3], e[4]
+    if name == "contains" and strip_wrappers(recv)[0] == "rangeincl":
+        rg = strip_wrappers(recv)
+        if strip_wrappers(rg[1]) == ("flit", "0.0") and strip_wrappers(rg[2]) == ("flit", "1.0") and len(args) == 1:
+            pv = compile_expr(ctx, env, args[0], F64)
+            unify(pv.ty, F64, "argument of (0.0..=1.0).contains")
+            return Val(f"Rand.F64.inUnit {pv.p()}", BOOL)
+        raise TErr(f"`{unparse(e)}`: only `(0.0..=1.0).contains(&p)` is supported")
+    if name in ("unwrap", "expect", "unwrap_unchecked") and strip_wrappers(recv)[0] == "call" and \
+            strip_wrappers(recv)[1] == ("path", ["usize", "try_from"]) and len(strip_wrappers(recv)[2]) == 1:
+        # u64 -> usize: never fails on a 64-bit target (docs/AlgoGen.md, assumption)
+        x = compile_expr(ctx, env, strip_wrappers(recv)[2][0], U64)
+        unify(x.ty, U64, "argument of usize::try_from")
+        return Val(f"{x.p()}.toNat", NAT, atomic=True)
     if name in ("as_mut_ptr", "as_ptr", "add"):
         raise TErr(f"`{unparse(e)}`: a raw pointer is supported only as `let p = v.as_mut_ptr();`, "
                    f"`let q = p.add(i);`, `*p.add(i)`, `*q`")
@@ -1913,13 +2332,46 @@ def compile_mcall(ctx, env, e, expect):
         rt = prune(place_val(ctx, env, pl).ty)
         if not isinstance(rt, TVar) and rt[0] == "struct" and (rt[1], name) in ctx.fntab:
             return compile_fn_call(ctx, env, rt[1], name, pl, args)
-    r = compile_expr(ctx, env, recv)
+    if name == "collect" and not args and ctx.sinfo.get("extern") and effectful(ctx, recv):
+        return compile_collect_loop(ctx, env, e, fish, expect)
+    outer_ct = ctx.collect_target
+    if name == "collect":
+        m = re.match(r"(?:Vec|BTreeSet)<(.*)>\Z", fish or outer_ct or "")
+        ctx.collect_target = m.group(1) if m else None
+    else:
+        ctx.collect_target = None
+    try:
+        r = compile_expr(ctx, env, recv)
+    finally:
+        ctx.collect_target = outer_ct
     t = prune(r.ty)
+    if isinstance(t, TVar) and t.numeric and name in ("wrapping_add", "wrapping_mul", "rotate_left"):
+        unify(t, U64, f"receiver of .{name}")
+        t = prune(t)
     if not isinstance(t, TVar) and t[0] == "struct" and "extern" in STRUCTS.get(t[1], {}):
         if name == "order" and not args:
             return Val(f"{r.p()}.order", NAT, atomic=True)
         if name == "arcs" and not args:
             return Val(f"{r.p()}.arcs", LIST(TUP(NAT, NAT)), atomic=True)
+        if name == "has_arc" and len(args) == 2 and t[1] in ("AdjacencyMatrix", "EdgeList"):
+            # total for these two (no assertion, no unchecked access): the hand-written `hasArc`
+            a = compile_expr(ctx, env, args[0], NAT)
+            b = compile_expr(ctx, env, args[1], NAT)
+            unify(a.ty, NAT, "argument of has_arc")
+            unify(b.ty, NAT, "argument of has_arc")
+            return Val(f"{r.p()}.hasArc {a.p()} {b.p()}", BOOL)
+        if name == "clone" and not args:
+            return r
+        if t[1] == "AdjacencyMap" and name == "vertices" and not args:
+            # `self.arcs.keys().copied()`: the hand-written `AdjMap.vertices`
+            return Val(f"{r.p()}.vertices", LIST(NAT), atomic=True)
+        if t[1] == "AdjacencyMap" and name == "out_neighbors" and len(args) == 1:
+            # `assert!(self.arcs.contains_key(&u))`, then the row of `u` (ascending)
+            u = compile_expr(ctx, env, args[0], NAT)
+            unify(u.ty, NAT, "argument of out_neighbors")
+            tmp = ctx.fresh_tmp()
+            ctx.em.emit(f"let {tmp} ← optP (Repr.mget {u.p()} {r.p()}.rows)")
+            return Val(tmp, LIST(NAT), atomic=True, stable=True)
         raise TErr(f"method `.{name}` of `{t[1]}` is outside the supported subset")
     if t == GRAPH_T:
         kind = ctx.sinfo["graph"]
@@ -1968,6 +2420,8 @@ def compile_mcall(ctx, env, e, expect):
         if name in ("iter", "copied", "cloned", "into_iter", "by_ref") and not args:
             return r
         if name == "collect" and not args:
+            if ctx.sinfo.get("extern") and (fish is not None or ctx.collect_target is not None or expect is not None):
+                return compile_collect(ctx, e, r, t, fish, expect)
             return r
         if name == "get" and len(args) == 1:
             i = compile_expr(ctx, env, args[0], NAT)
@@ -1977,8 +2431,24 @@ def compile_mcall(ctx, env, e, expect):
             rt = TVar()
             f = compile_closure(ctx, env, args[0], [t[1]], rt)
             return Val(f"List.map ({f.code}) {r.p()}", LIST(rt))
+        if name == "filter" and len(args) == 1:
+            f = compile_closure(ctx, env, args[0], [t[1]], BOOL)
+            return Val(f"List.filter ({f.code}) {r.p()}", LIST(t[1]))
         if name == "enumerate" and not args:
             return Val(f"List.map (fun p => (p.2, p.1)) {r.p()}.zipIdx", LIST(TUP(NAT, t[1])))
+        if ctx.sinfo.get("extern"):
+            if name == "keys" and not args:
+                vt = TVar()
+                unify(t[1], TUP(NAT, vt), "`.keys()` needs a key-value list")
+                return Val(f"List.map (fun e => e.1) {r.p()}", LIST(NAT))
+            if name == "flat_map" and len(args) == 1:
+                rt = TVar()
+                f = compile_closure(ctx, env, args[0], [t[1]], LIST(rt))
+                return Val(f"List.flatMap ({f.code}) {r.p()}", LIST(rt))
+            if name == "chain" and len(args) == 1:
+                o = list_iter(ctx, env, args[0])
+                unify(o.ty, r.ty, "operands of .chain")
+                return Val(f"{r.p()} ++ {o.p()}", r.ty)
         if name == "is_empty" and not args:
             return Val(f"{r.p()}.isEmpty", BOOL, atomic=True)
         if name == "contains_key" and len(args) == 1:
@@ -2021,6 +2491,21 @@ def compile_mcall(ctx, env, e, expect):
             k = compile_expr(ctx, env, args[0], NAT)
             unify(k.ty, NAT, "map key")
             return Val(f"(mapGet {r.p()} {k.p()}).isSome", BOOL, atomic=True)
+    if ctx.sinfo.get("extern") and not isinstance(t, TVar) and (t == PSET or t[0] == "set"):
+        et = TUP(NAT, NAT) if t == PSET else NAT
+        if t != PSET:
+            unify(t[1], KA, "set representation")
+        if name in ("iter", "into_iter") and not args:
+            # ascending iteration order = the ascending list that represents the set
+            return Val(r.code, LIST(et), atomic=r.atomic, stable=r.stable)
+        if name == "difference" and len(args) == 1:
+            # `a.difference(&b)`: the items of `a` (ascending) that are not in `b`
+            o = compile_expr(ctx, env, args[0], t)
+            unify(o.ty, t, "argument of .difference")
+            y = ctx.fresh_name("y")
+            return Val(f"List.filter (fun {y} => !({o.p()}.contains {y})) {r.p()}", LIST(et))
+        if name == "clone" and not args:
+            return r
     if not isinstance(t, TVar) and t[0] == "set":
         if name == "contains" and len(args) == 1:
             k = compile_expr(ctx, env, args[0], NAT)
@@ -2035,6 +2520,15 @@ def compile_mcall(ctx, env, e, expect):
     if not isinstance(t, TVar) and t[0] == "tarjanOf":
         if name == "components" and not args:
             return Val(f"Johnson.tarjan {r.p()}", LIST(SET(KA)))
+    if t == U64:
+        if name in ("wrapping_add", "wrapping_mul") and len(args) == 1:
+            b = compile_expr(ctx, env, args[0], U64)
+            unify(b.ty, U64, f"operand of .{name}")
+            return Val(f"{r.p()} {'+' if name == 'wrapping_add' else '*'} {b.p()}", U64)
+        if name == "rotate_left" and len(args) == 1:
+            b = compile_expr(ctx, env, args[0], U64)
+            unify(b.ty, U64, "rotation amount")
+            return Val(f"Rand.rotl {r.p()} {b.p()}", U64)
     if t in (NAT, INT) or (isinstance(t, TVar) and t.numeric):
         if name in ("min", "max") and len(args) == 1 and (name == "min" or ctx.sinfo.get("extern")):
             b = compile_expr(ctx, env, args[0], r.ty)
@@ -2044,6 +2538,11 @@ def compile_mcall(ctx, env, e, expect):
         if name == "unwrap" and not args:
             tmp = ctx.fresh_tmp()
             ctx.em.emit(f"let {tmp} ← unwrapO {r.p()}")
+            return Val(tmp, t[1], atomic=True, stable=True)
+        if name == "unwrap_unchecked" and not args and ctx.sinfo.get("extern"):
+            # `None` here is undefined behaviour
+            tmp = ctx.fresh_tmp()
+            ctx.em.emit(f"let {tmp} ← unwrapU {ctx.site(unparse(e))} {r.p()}")
             return Val(tmp, t[1], atomic=True, stable=True)
         if name == "map" and len(args) == 1:
             rt = TVar()
@@ -2095,8 +2594,20 @@ def bind_val(ctx, env, rust, v, mut, emit_let=True):
     """bind the Rust variable `rust` to the value v (always under a Lean identifier of its own)."""
     check_no_alias_root(env, rust)
     lean = ctx.fresh_name(rust)
-    ctx.em.emit(f"let {lean} := {v.code}")
-    return ctx.new_bind(env, Bind("val", rust, lean=lean, ty=v.ty, mut=mut, stable=not mut))
+    code = v.code
+    if getattr(v, "lit", None) is not None:
+        # a variable initialised with a bare literal: Lean needs the type when it is not `Nat`
+        t = prune(v.ty)
+        if isinstance(t, TVar):
+            TVARS[t.id] = t
+            code = f"«L{t.id}:{v.lit}»"
+        elif t == U64:
+            code = f"({v.lit} : UInt64)"
+    ctx.em.emit(f"let {lean}{asc_mark(v.ty)} := {code}")
+    b = ctx.new_bind(env, Bind("val", rust, lean=lean, ty=v.ty, mut=mut, stable=not mut))
+    if not mut and getattr(v, "const_val", None) is not None:
+        b.const_val = v.const_val
+    return b
 
 
 def bind_pattern(ctx, env, pat, v, emit_let):
@@ -2217,7 +2728,7 @@ def mutated_vars(ctx, node, scopes, out):
             return root_of(e[1])
         if e[0] == "un" and e[1] in ("*", "&"):
             return root_of(e[2])
-        if e[0] == "mcall" and e[2] == "add":
+        if e[0] == "mcall" and e[2] in ("add", "get_unchecked_mut", "get_unchecked", "entry", "or_default"):
             return root_of(e[1])
         return None
 
@@ -2255,10 +2766,15 @@ def mutated_vars(ctx, node, scopes, out):
             r = root_of(node[1])
             if r is not None:
                 hit(r)
-        elif (node[2], ) and root_of(node[1]) == "self" and strip_wrappers(node[1])[0] == "var":
-            sig = ctx.fntab.get((ctx.sname, node[2]))
-            if sig is not None and sig["self_mode"] == "mut":
-                hit("self")
+        elif strip_wrappers(node[1])[0] == "var" and root_of(node[1]) is not None:
+            # a generated `&mut self` method called on `self` or on a local struct value
+            rname = root_of(node[1])
+            if rname == "self":
+                sig = ctx.fntab.get((ctx.sname, node[2]))
+                if sig is not None and sig["self_mode"] == "mut":
+                    hit("self")
+            elif any(fn == node[2] and sg["self_mode"] == "mut" for (sn, fn), sg in ctx.fntab.items()):
+                hit(rname)
         mutated_vars(ctx, node[1], scopes, out)
         sig = None
         rr = root_of(node[1])
@@ -2563,12 +3079,19 @@ def compile_elem_method(ctx, env, ep, name, args, e):
     """a mutating method on a vector element reached through a pointer: read, update, write back"""
     place, i, site = ep
     et = prune(prune(place_val(ctx, env, place).ty)[1])
+    if isinstance(et, TVar) and name == "insert":
+        unify(et, SET(KA if ctx.sinfo.get("extern") else TVar()), "vector element")
+        et = prune(et)
     if isinstance(et, TVar) or et[0] != "set":
         raise TErr(f"`{unparse(e)}`: method on a vector element that is not a set")
     if name == "insert" and len(args) == 1:
         k = compile_expr(ctx, env, args[0], NAT)
         unify(k.ty, NAT, "set element")
-        elem_update(ctx, env, ep, lambda old: f"(setInsert{kind_suffix(et[1])} {k.p()} {old.code})")
+        if ctx.sinfo.get("extern"):
+            unify(et[1], KA, "set representation")
+            elem_update(ctx, env, ep, lambda old: f"(Repr.sinsert {k.p()} {old.code})")
+        else:
+            elem_update(ctx, env, ep, lambda old: f"(setInsert{kind_suffix(et[1])} {k.p()} {old.code})")
         return True
     if name == "remove" and len(args) == 1:
         k = compile_expr(ctx, env, args[0], NAT)
@@ -2588,17 +3111,75 @@ def compile_discarded_call(ctx, env, e):
     """`let _ = x.insert(..)` / `x.remove(..)` / `v.pop()` / a call of a generated method: the value is
     dropped, the receiver is updated.  Returns False when `e` is none of these."""
     recv, name, args = e[1], e[2], e[4]
+    sr = strip_wrappers(recv)
+    if ctx.sinfo.get("extern"):
+        # `m.entry(k).or_default()` / `m.entry(k).or_default().insert(x)` on a `BTreeMap<usize, BTreeSet<usize>>`:
+        # the hand-written insert-or-update `Repr.mupsert k [] f m`
+        ent, upd = None, None
+        if name == "or_default" and not args and sr[0] == "mcall" and sr[2] == "entry" and len(sr[4]) == 1:
+            ent, upd = sr, "id"
+        elif name == "insert" and len(args) == 1 and sr[0] == "mcall" and sr[2] == "or_default" and not sr[4]:
+            s2 = strip_wrappers(sr[1])
+            if s2[0] == "mcall" and s2[2] == "entry" and len(s2[4]) == 1:
+                ent = s2
+        if ent is not None:
+            pl = place_of(ent[1])
+            if pl is None or pl[0] not in env or env[pl[0]].kind != "val":
+                raise TErr(f"`{unparse(e)}`: `.entry(..)` on something that is not a variable or field")
+            unify(place_val(ctx, env, pl).ty, LIST(TUP(NAT, SET(KA))), "receiver of `.entry(k).or_default()`")
+            k = compile_expr(ctx, env, ent[4][0], NAT)
+            unify(k.ty, NAT, "map key")
+            if upd is None:
+                x = compile_expr(ctx, env, args[0], NAT)
+                unify(x.ty, NAT, "set element")
+                upd = f"(Repr.sinsert {x.p()})"
+            pv = place_val(ctx, env, pl)
+            place_set(ctx, env, pl, f"Repr.mupsert {k.p()} [] {upd} {pv.p()}")
+            return True
     ep = elem_place(ctx, env, recv)
     if ep is not None:
         return compile_elem_method(ctx, env, ep, name, args, e)
+    if sr[0] == "index" and name == "insert" and len(args) == 2 and ctx.sinfo.get("extern"):
+        # `rows[i].insert(k, x)` on a `Vec<BTreeMap<usize, X>>`: checked indexing (panic), then `BTreeMap::insert`
+        pl = place_of(sr[1])
+        if pl is None or pl[0] not in env or env[pl[0]].kind != "val":
+            return False
+        vt = TVar()
+        unify(place_val(ctx, env, pl).ty, LIST(LIST(TUP(NAT, vt))), "receiver of `[i].insert(k, x)`")
+        i = compile_expr(ctx, env, sr[2], NAT)
+        unify(i.ty, NAT, "index")
+        k = compile_expr(ctx, env, args[0], NAT)
+        unify(k.ty, NAT, "map key")
+        x = compile_expr(ctx, env, args[1], vt)
+        unify(x.ty, vt, "map value")
+        pv = place_val(ctx, env, pl)
+        old = ctx.fresh_tmp()
+        ctx.em.emit(f"let {old} ← idx {pv.p()} {i.p()}")
+        place_set(ctx, env, pl, f"{pv.p()}.set {i.p()} (Ops.minsert {k.p()} {x.p()} {old})")
+        return True
     pl = place_of(recv)
     if pl is None or pl[0] not in env or env[pl[0]].kind != "val":
         return False
     pv = place_val(ctx, env, pl)
     t = prune(pv.ty)
+    if ctx.sinfo.get("extern") and name == "insert" and len(args) == 2 and (isinstance(t, TVar) or t[0] == "list"):
+        # `m.insert(k, x)` on a local `BTreeMap<usize, X>`: the hand-written `Ops.minsert`
+        vt = TVar()
+        unify(pv.ty, LIST(TUP(NAT, vt)), "receiver of `.insert(k, x)`")
+        k = compile_expr(ctx, env, args[0], NAT)
+        unify(k.ty, NAT, "map key")
+        x = compile_expr(ctx, env, args[1], vt)
+        unify(x.ty, vt, "map value")
+        pv = place_val(ctx, env, pl)
+        place_set(ctx, env, pl, f"Ops.minsert {k.p()} {x.p()} {pv.p()}")
+        return True
     if isinstance(t, TVar) and name == "insert" and len(args) == 1:
         a0 = strip_wrappers(args[0])
-        unify(t, PSET if a0[0] == "tup" else SET(TVar()), "receiver of .insert")
+        is_pair = a0[0] == "tup"
+        if ctx.sinfo.get("extern") and a0[0] == "var" and a0[1] in env and env[a0[1]].kind == "val":
+            at = prune(env[a0[1]].ty)
+            is_pair = not isinstance(at, TVar) and at[0] == "tup"
+        unify(t, PSET if is_pair else SET(TVar()), "receiver of .insert")
         t = prune(t)
     if isinstance(t, TVar):
         return False
@@ -2623,7 +3204,10 @@ def compile_discarded_call(ctx, env, e):
         k = compile_expr(ctx, env, args[0], NAT)
         unify(k.ty, NAT, "set element")
         pv = place_val(ctx, env, pl)
-        if name == "insert":
+        if ctx.sinfo.get("extern"):
+            unify(t[1], KA, "set representation")
+            place_set(ctx, env, pl, f"Repr.{'sinsert' if name == 'insert' else 'serase'} {k.p()} {pv.p()}")
+        elif name == "insert":
             place_set(ctx, env, pl, f"setInsert{kind_suffix(t[1])} {k.p()} {pv.p()}")
         else:
             place_set(ctx, env, pl, f"setRemove {k.p()} {pv.p()}")
@@ -2638,6 +3222,7 @@ def compile_branch(ctx, env, stmts, M, base, pre=None, tail_then=False):
     """a nested `do` block at indentation base+4 ending in `pure <M>` unless it diverges."""
     ctx.em.indent = base + 4
     inner = dict(env)
+    ctx.branch_states.append((ctx.bid, None if ends_diverging(stmts) else {b.bid for b in M}))
     lp = ctx.loops[-1] if ctx.loops else None
     if lp is not None:
         lp.cont_ok.append(tail_then and lp.depth == 0)
@@ -2650,6 +3235,7 @@ def compile_branch(ctx, env, stmts, M, base, pre=None, tail_then=False):
     if lp is not None:
         lp.depth -= 1
         lp.cont_ok.pop()
+    ctx.branch_states.pop()
     ctx.em.indent = base
     return div
 
@@ -2725,16 +3311,30 @@ def compile_assign(ctx, env, e):
     op, lhs, rhs = e[1], e[2], e[3]
     slhs = strip_wrappers(lhs)
     if slhs[0] == "un" and slhs[1] == "*":
-        if op != "=":
-            raise TErr(f"`{op}` through a pointer is outside the supported subset")
         target = slhs[2]
         pe = eval_ptr(ctx, env, target)
         if pe is not None:
             if pe[0] != "elem":
-                raise TErr(f"`{unparse(lhs)} = ..`: writing through the buffer pointer itself")
+                if not ctx.sinfo.get("ptr_deref0"):
+                    raise TErr(f"`{unparse(lhs)} = ..`: writing through the buffer pointer itself")
+                pe = ("elem", pe[1], Val("0", NAT, atomic=True), ctx.site(unparse(target)))   # `*p` is element 0
             _, place, i, site = pe
             pv = place_val(ctx, env, place)
             t = prune(pv.ty)
+            if op != "=":
+                # `*p.add(i) ^= e`: read, combine, write (the right operand is evaluated first, as Rust does
+                # for primitive compound assignment)
+                rv = compile_expr(ctx, env, rhs, t[1])
+                unify(rv.ty, t[1], f"operand of {op}")
+                if op != "^=" or prune(t[1]) != U64:
+                    raise TErr(f"`{op}` through a pointer is supported for `^=` on u64 only")
+                old = ctx.fresh_tmp()
+                pv = place_val(ctx, env, place)
+                ctx.em.emit(f"let {old} ← rd {site} {pv.p()} {i.p()}")
+                tmp = ctx.fresh_tmp()
+                ctx.em.emit(f"let {tmp} ← wr {site} {pv.p()} {i.p()} ({old} ^^^ {rv.p()})")
+                place_set(ctx, env, place, tmp)
+                return
             v = compile_expr(ctx, env, rhs, t[1])
             unify(v.ty, t[1], f"value written through `{unparse(target)}`")
             tmp = ctx.fresh_tmp()
@@ -2929,6 +3529,7 @@ def emit_loop_def(ctx, env, key, what, S, brk_ty_of, item, build, self_param=Non
     S: state bindings; item: None | (param name, type); build(inner_env) emits the body (it must end
     the block itself).  Returns the application `Struct.fn_key g inf fuel caps..` (without state / item)."""
     frame = Frame(ctx.bid)
+    frame.state_bids = {b.bid for b in S}
     ctx.frames.append(frame)
     saved_em = ctx.em
     ctx.em = Emitter(2)
@@ -2998,6 +3599,13 @@ def list_iter(ctx, env, it):
         return Val(f"range {lo.p()} {hi.p()}", LIST(NAT))
     v = compile_expr(ctx, env, it)
     t = prune(v.ty)
+    if ctx.sinfo.get("extern") and not isinstance(t, TVar):
+        # a BTreeSet iterates in ascending order: the ascending list that represents it
+        if t == PSET:
+            return Val(v.code, LIST(TUP(NAT, NAT)), atomic=v.atomic, stable=v.stable)
+        if t[0] == "set":
+            unify(t[1], KA, "iterating a set needs its ascending representation")
+            return Val(v.code, LIST(NAT), atomic=v.atomic, stable=v.stable)
     if isinstance(t, TVar) or t[0] != "list":
         raise TErr(f"`for .. in {unparse(it)}`: not a list-like iterator (type {show_ty(t)})")
     return v
@@ -3030,6 +3638,20 @@ def item_param(ctx, pat, ty):
 
 def compile_for(ctx, env, e):
     pat, it, body = e[1], e[2], e[3]
+    sit0 = strip_wrappers(it)
+    if sit0[0] == "mcall" and sit0[2] == "zip" and len(sit0[4]) == 1 and strip_wrappers(sit0[4][0])[0] == "var":
+        rname = strip_wrappers(sit0[4][0])[1]
+        rb = env.get(rname)
+        rt = prune(rb.ty) if rb is not None and rb.kind == "val" else None
+        sp = strip_pref(pat)
+        if rt is not None and not isinstance(rt, TVar) and rt[0] == "struct" and (rt[1], "next") in ctx.fntab \
+                and sp[0] == "ptup" and len(sp[1]) == 2:
+            # `zip` stops at the first `None` of either side; the iterator value is moved into the loop
+            rb.mut = True
+            new_body = [("let", ("pctor", "Some", [sp[1][1]]), None, ("mcall", ("var", rname), "next", None, []),
+                         [("expr", ("break", None), True)])] + body
+            return compile_for(ctx, env, ("for", sp[1][0], sit0[1], new_body))
+        raise TErr(f"`{unparse(it)}`: `zip` is supported with a generated iterator struct as the argument only")
     key = loop_key(ctx, "for")
     what = f"body of `for {unparse_pat(pat)} in {unparse(it)}`"
     S = state_binds(ctx, env, [("expr", ("for", pat, ("tup", []), body), True)])
@@ -3193,6 +3815,13 @@ def rust_ty(text, ctx_struct, aliases, bounds):
         return NAT
     if t == "isize":
         return INT
+    if t == "u64":
+        return U64
+    if t == "f64":
+        return F64U if STRUCTS[ctx_struct].get("f64_unit") else F64
+    m = re.match(r"\[(.+);\d+\]\Z", t)
+    if m:
+        return LIST(rust_ty(m.group(1), ctx_struct, aliases, bounds))
     if t == "bool":
         return BOOL
     if t == "Self":
@@ -3254,6 +3883,8 @@ def parse_bounds(ret_text, ctx_struct, aliases):
             continue
         if name == "D":
             continue      # the digraph: its kind is fixed by the typed model (`graph`), checked below
+        if name == "W" and bound in ("Copy", "Clone") and ctx_struct == "AdjacencyListWeighted":
+            continue      # the weight type: `Int` in the typed model, copying it is not observable
         raise TErr(f"bound `{part}` is outside the typed model")
     return out
 
@@ -3272,6 +3903,29 @@ def check_graph_bounds(sname, region):
 
 def file_aliases(region):
     return {m.group(1): m.group(2).replace(" ", "") for m in re.finditer(r"^type\s+(\w+)\s*=\s*([^;]+);", region, re.M)}
+
+
+def desugar(n):
+    """syntactic rewrites of iterator adaptors with a block closure into the loops they run (bottom up)."""
+    if isinstance(n, list):
+        return [desugar(x) for x in n]
+    if not isinstance(n, tuple):
+        return n
+    n = tuple(desugar(x) for x in n)
+    if n and n[0] == "mcall" and n[2] == "fold" and len(n[4]) == 2 and n[4][1][0] == "closure":
+        # `it.fold(init, |mut acc, pat| { stmts; acc })` = `{ let mut acc = init; for pat in it { stmts } acc }`
+        # (`Iterator::fold` calls the closure once per item, in order, handing the result on)
+        init, lam = n[4]
+        ps, body = lam[1], lam[2]
+        acc = strip_pref(ps[0]) if len(ps) == 2 else None
+        ok = (acc is not None and acc[0] == "pvar" and acc[2] and body[0] == "block" and body[1]
+              and body[1][-1] == ("expr", ("var", acc[1]), False))
+        if not ok:
+            raise TErr(f"`{unparse(n)}`: only `.fold(init, |mut acc, pat| {{ ..; acc }})` is supported")
+        return ("block", [("let", ("pvar", acc[1], True), None, init, None),
+                          ("expr", ("for", ps[1], n[1], list(body[1][:-1])), True),
+                          ("expr", ("var", acc[1]), False)])
+    return n
 
 
 def translate_fn(sname, trait, rfn, lname, opts, params_text, ret_text, body_text, fntab, aliases):
@@ -3333,6 +3987,8 @@ def translate_fn(sname, trait, rfn, lname, opts, params_text, ret_text, body_tex
         ctx.new_bind(env, Bind("val", name, lean=lean, ty=t, mut=mut, stable=not mut))
         params.append((lean, t, name))
     stmts = parse_body(body_text)
+    if STRUCTS[sname].get("extern"):
+        stmts = desugar(stmts)
     collect_ptr_aliases(stmts, ctx.ptr_alias)
     # a self-recursive method: structural recursion on fuel; the loop bodies get the recursive
     # function (already applied to the smaller fuel) as the parameter `recf`
@@ -3377,7 +4033,7 @@ def translate_fn(sname, trait, rfn, lname, opts, params_text, ret_text, body_tex
     else:
         ps = [f"({n} : {t})" for n, t in gl]
         if ctx.self_mode is not None:
-            ps.append(f"(self : {sname})")
+            ps.append(f"(self : {STRUCTS[sname].get('extern', sname)})")
         ps += [f"({lean} : {lean_ty(t)})" for lean, t, _ in params]
         sig = f"def {name}" + "".join(" " + x for x in ps) + f" :\n    Res {lean_ty(ctx.res_ty(), True)} := fnBody do"
     text = "\n".join(ctx.defs) + ("\n" if ctx.defs else "") + doc + "\n" + sig + "\n" + "\n".join(ctx.em.lines) + "\n"
@@ -3410,7 +4066,8 @@ namespace GraafVerif.AlgoGen
 def struct_decl(sname):
     info = STRUCTS[sname]
     note = " (the digraph reference is the parameter `g` of the functions)" if info["graph"] else ""
-    lines = [f"/-- `{info['file']}`: `pub struct {sname}`{note}. -/",
+    fpath = info["file"] if "dir" not in info else info["dir"] + "/" + info["file"]
+    lines = [f"/-- `{fpath}`: `pub struct {sname}`{note}. -/",
              f"structure {sname} where"]
     for f, rt, ty in info["fields"]:
         if ty is None:
@@ -3533,6 +4190,21 @@ namespace GraafVerif.AlgoGen
 
 '''
 
+HEADER3 = '''import GraafVerif.Model.AlgoGenRt3
+/-!
+# GENERATED by tools/translate_algo.py --set 3 from {repo}/src — do not edit
+
+Third generated file of the imperative-Rust-subset → pure-Lean translator (`docs/AlgoGen.md`,
+"Set 3"): the PRNGs of `src/gen/prng`, the sequential seeded generators and the sequential
+operations of `src/repr/*/mod.rs`.  `Thm/AlgoGen3.lean` proves every definition below equal to the
+hand-written model function (`Model/Rand.lean`, `Model/Ops.lean`) that the property theorems C15,
+C11 are about.  Runtime: `Model/AlgoGenRt.lean`, `Model/AlgoGenRt2.lean`, `Model/AlgoGenRt3.lean`.
+-/
+set_option linter.unusedVariables false
+namespace GraafVerif.AlgoGen
+
+'''
+
 SETS = {}
 GEN_ROWS = {}
 
@@ -3591,8 +4263,8 @@ def coverage(srcs, fntab, which=1):
                     aux = [d for d in sig["defs"] if d != f"{sname}.{targeted[k]}"]
                     note = f"`AlgoGen.{sname}.{targeted[k]}`" + (" + " + ", ".join(f"`{a.split('.', 1)[1]}`" for a in aux) if aux else "")
                     rows.append((sname, trait, fn, "covered", note))
-                elif k in NOT_COVERED:
-                    rows.append((sname, trait, fn, "not covered", NOT_COVERED[k]))
+                elif k in (NOT_COVERED3 if which == 3 else NOT_COVERED):
+                    rows.append((sname, trait, fn, "not covered", (NOT_COVERED3 if which == 3 else NOT_COVERED)[k]))
                 elif "extern" not in STRUCTS[sname]:
                     rows.append((sname, trait, fn, "not targeted", ""))
     return rows
@@ -3614,10 +4286,12 @@ def main():
     root = os.path.dirname(os.path.dirname(os.path.abspath(__file__)))
     SETS[1] = (TARGETS, HEADER)
     SETS[2] = (TARGETS2, HEADER2)
+    SETS[3] = (TARGETS3, HEADER3)
     ap = argparse.ArgumentParser()
     ap.add_argument("--repo", default="/repo")
     ap.add_argument("--set", type=int, default=1, choices=sorted(SETS),
-                    help="1: Model/AlgoGen.lean (src/algo traversals / shortest paths); 2: Model/AlgoGen2.lean")
+                    help="1: Model/AlgoGen.lean (src/algo traversals / shortest paths); 2: Model/AlgoGen2.lean (tarjan, johnson_75, "
+                         "From conversions); 3: Model/AlgoGen3.lean (PRNGs, sequential generators, sequential operations)")
     ap.add_argument("--out", default=None)
     ap.add_argument("--check", action="store_true", help="exit 3 if the file on disk differed (it is rewritten)")
     ap.add_argument("--list", action="store_true", help="print the coverage table")
